@@ -85,6 +85,7 @@ class Runner:
             self.cm = self.w.consumer_mdib(self.cons)
             self.rec = NotificationRecorder(self.cm, self.canon)
         self.handed_out = []      # objects handed out by getters (for the isolation stream)
+        self.slots = {}           # entities read by a 'read' operation; written (possibly stale) by later operations
         self.stored = []          # fault streams: raw notification requests in emission order
         self.pending = []
         self.pending_seen = _IdSet()
@@ -101,16 +102,28 @@ class Runner:
             self.w.net.hook = hook
 
     # ------------------------------------------------------------------ ops
+    def do_read(self, op):
+        ent = self.pm.entities.by_handle(op['handle'])
+        if ent is None:
+            raise KeyError(op['handle'])
+        self.slots[op['slot']] = ent
+
+    def entity(self, handle, slot=None):
+        """a fresh entity, or the one that an earlier 'read' operation put into `slot` (stale by now if other
+        transactions committed on the same object since)"""
+        ent = self.slots[slot] if slot is not None else self.pm.entities.by_handle(handle)
+        if ent is None:
+            raise KeyError(handle)
+        return ent
+
     def do_state(self, op):
         body_step = 0
         with getattr(self.pm, TX[op['tx']])() as tr:
-            for i, (handle, n) in enumerate(op['items']):
+            for i, (handle, n, *slot) in enumerate(op['items']):
                 if op.get('abort_at') == i:
                     raise Abort
                 if op.get('iface') == 'entity':
-                    ent = self.pm.entities.by_handle(handle)
-                    if ent is None:
-                        raise KeyError(handle)
+                    ent = self.entity(handle, *slot)
                     mdibrun.set_payload(ent.state, n, self.pm_types)
                     tr.write_entity(ent)
                 else:
@@ -129,9 +142,9 @@ class Runner:
                     raise Abort
                 kind = act[0]
                 if kind == 'mk':
-                    _, dh, handle, assoc, n = act
+                    _, dh, handle, assoc, n, *slot = act
                     if op.get('iface') == 'entity':
-                        ent = self.pm.entities.by_handle(dh)
+                        ent = self.entity(dh, *slot)
                         st = ent.new_state(handle)
                         mdibrun.set_payload(st, n, self.pm_types)
                         if assoc:
@@ -142,11 +155,11 @@ class Runner:
                         st = tr.mk_context_state(dh, handle, set_associated=bool(assoc))
                         mdibrun.set_payload(st, n, self.pm_types)
                 elif kind == 'get':
-                    _, handle, n, assoc = act
+                    _, handle, n, assoc, *slot = act
                     handle = self.real_handle(handle)
                     if op.get('iface') == 'entity':
                         st0 = self.pm.context_states.handle.get_one(handle)
-                        ent = self.pm.entities.by_handle(st0.DescriptorHandle)
+                        ent = self.entity(st0.DescriptorHandle, *slot)
                         st = ent.states[handle]
                     else:
                         st = tr.get_context_state(handle)
@@ -341,15 +354,25 @@ class Runner:
                     raise Abort
                 kind = act[0]
                 if kind == 'add':
-                    _, handle, parent, type_name, n, with_state = act
-                    if op.get('iface') == 'entity':
+                    _, handle, parent, type_name, n, with_state, *slot = act
+                    if op.get('iface') == 'entity' and slot:
+                        # the entity was read before its descriptor was removed: writing it creates the descriptor again
+                        ent = self.entity(handle, *slot)
+                        mdibrun.set_payload(ent.descriptor, n, self.pm_types)
+                        pending_mds[handle] = ent.descriptor.source_mds
+                        if not ent.is_multi_state and with_state is not None:
+                            mdibrun.set_payload(ent.state, with_state, self.pm_types)
+                        tr.write_entity(ent)
+                    elif op.get('iface') == 'entity':
                         ent = self.pm.entities.by_handle(self.template(type_name).Handle)   # private deep copies
                         ent.descriptor.Handle = handle
                         ent.descriptor.parent_handle = parent
                         ent.descriptor.DescriptorVersion = 0
-                        # like ProviderEntityGetter.new_entity: the source MDS is inherited from the parent
-                        par = self.pm.descriptions.handle.get_one(parent, allow_none=True)
-                        ent.descriptor.set_source_mds(par.source_mds if par is not None else pending_mds.get(parent))
+                        # like ProviderEntityGetter.new_entity: the source MDS is inherited from the parent; a
+                        # descriptor without parent is an MDS and its own source
+                        par = self.pm.descriptions.handle.get_one(parent, allow_none=True) if parent is not None else None
+                        ent.descriptor.set_source_mds(handle if parent is None else
+                                                      par.source_mds if par is not None else pending_mds.get(parent))
                         pending_mds[handle] = ent.descriptor.source_mds
                         mdibrun.set_payload(ent.descriptor, n, self.pm_types)
                         if ent.is_multi_state:
@@ -375,11 +398,9 @@ class Runner:
                                 mdibrun.set_payload(st, with_state, self.pm_types)
                         tr.add_descriptor(d, state_container=st)
                 elif kind == 'upd':
-                    _, handle, n = act
+                    _, handle, n, *slot = act
                     if op.get('iface') == 'entity':
-                        ent = self.pm.entities.by_handle(handle)
-                        if ent is None:
-                            raise KeyError(handle)
+                        ent = self.entity(handle, *slot)
                         mdibrun.set_payload(ent.descriptor, n, self.pm_types)
                         tr.write_entity(ent)
                     else:
@@ -422,7 +443,7 @@ class Runner:
             try:
                 {'state': self.do_state, 'ctx': self.do_ctx, 'location': self.do_location,
                  'descr': self.do_descr, 'setctx': self.do_setctx, 'reseq': self.do_reseq, 'reload': self.do_reload,
-                 'nop': lambda op: None}[op['k']](op)
+                 'read': self.do_read, 'nop': lambda op: None}[op['k']](op)
             except Exception as ex:  # noqa: BLE001
                 res = exc_code(ex)
                 if res.startswith('Other'):
@@ -484,6 +505,8 @@ def delta(a, b):
         if len(db) != len(b[t]):
             out['index_problems'] = out['index_problems'] + [f'{t}: two objects with one key']
     out['saved'] = {k: [e for e in b['saved'][k] if e not in a['saved'][k]] for k in ('d', 's', 'c')}
+    # remembered versions that are gone (handle_version_lookup only ever grows in the unchanged library)
+    out['saved_del'] = {k: sorted({str(e[0]) for e in a['saved'][k]} - {str(e[0]) for e in b['saved'][k]}) for k in ('d', 's', 'c')}
     if (b['seq'], b['inst']) != (a['seq'], a['inst']):
         out['seqinst'] = [b['seq'], b['inst']]
     return out
@@ -538,6 +561,9 @@ def inventory(mdib_file):
             inv['op'].append(d.Handle)
         elif d.is_context_descriptor:
             inv['ctx'].append(d.Handle)
+    # context states of the file under their canonical names (uuid handles are renamed in order of appearance)
+    canon = Canon()
+    inv['ctx_states'] = {canon.h(s.Handle): s.DescriptorHandle for s in m.context_states.objects}
     return inv
 
 
